@@ -737,6 +737,7 @@ func runAddFlag(c *core.Ctx) {
 	}
 	nFalse, nTrue := 0, 0
 	nReg, nRef := 0, 0
+	preRejects := acceptedRejectBlocks(c, add)
 	for _, rb := range an.ReturnBlocks(add) {
 		paths, ok := an.PathsTo(add, rb, 4096)
 		if !ok {
@@ -784,6 +785,9 @@ func runAddFlag(c *core.Ctx) {
 				if !insTrue && p.Contains(a.insCall.Block()) {
 					why = "insertion helper refused (duplicate or older)"
 					nRef++
+				}
+				if why == "" && preRejects[rb] {
+					why = "rejected by a read-locked pre-check each of whose rejections has a counterpart in the write-locked section (ONE-CS)"
 				}
 				if why == "" {
 					c.Bad(nil, fname(c, add), "return-false", pos, "Add reports 'not new' on a path that is neither a registry hit nor a refused insertion")
